@@ -39,7 +39,7 @@ theorem qualifyScope_ok (g : Gen) (σ : Schema) (outs : List (List String)) (s s
     (h : qualifyScope g σ outs s = .ok s') :
     ∃ srcs' env0, mkEnv g σ outs s.srcs = some (srcs', env0)
       ∧ hasDup (envNames (refOrder env0)) = false
-      ∧ buildScope g (refOrder env0) srcs' s = .ok s'
+      ∧ buildScope g (refOrder env0) (joinEnv g env0) srcs' s = .ok s'
       ∧ validate (envNames (refOrder env0)) s' = true := by
   unfold qualifyScope at h
   split at h
@@ -65,9 +65,9 @@ theorem bind_ok {ε α β} {x : Except ε α} {f : α → Except ε β} {b : β}
   | error e => simp [bind, Except.bind] at h
   | ok a => exact ⟨a, rfl, by simpa [bind, Except.bind] using h⟩
 
-theorem buildCore_shape (g : Gen) (env : Env) (srcs' : List Src) (ct : ColTables) (jgs : List (Join × Bool))
+theorem buildCore_shape (g : Gen) (env jenv : Env) (srcs' : List Src) (ct : ColTables) (jgs : List (Join × Bool))
     (replaced : Bool) (skip : List String) (s s' : Scope)
-    (h : buildCore g env srcs' ct jgs replaced skip s = .ok s') : s'.srcs = srcs' ∧ s'.outer = [] := by
+    (h : buildCore g env jenv srcs' ct jgs replaced skip s = .ok s') : s'.srcs = srcs' ∧ s'.outer = [] := by
   unfold buildCore at h
   obtain ⟨_, _, h⟩ := bind_ok h
   obtain ⟨_, _, h⟩ := bind_ok h
@@ -85,19 +85,19 @@ theorem buildCore_shape (g : Gen) (env : Env) (srcs' : List Src) (ct : ColTables
     exact ⟨rfl, rfl⟩
 
 /-- `buildScope` is step U followed by `buildCore` -/
-theorem buildScope_core (g : Gen) (env : Env) (srcs' : List Src) (s s' : Scope)
-    (h : buildScope g env srcs' s = .ok s') :
-    ∃ ct jgs replaced skip s1, buildCore g env srcs' ct jgs replaced skip s1 = .ok s' := by
+theorem buildScope_core (g : Gen) (env jenv : Env) (srcs' : List Src) (s s' : Scope)
+    (h : buildScope g env jenv srcs' s = .ok s') :
+    ∃ ct jgs replaced skip s1, buildCore g env jenv srcs' ct jgs replaced skip s1 = .ok s' := by
   unfold buildScope at h
   split at h
   · simp at h
   · obtain ⟨u, _, h⟩ := bind_ok h
     exact ⟨_, _, _, _, _, h⟩
 
-theorem buildScope_shape (g : Gen) (env : Env) (srcs' : List Src) (s s' : Scope)
-    (h : buildScope g env srcs' s = .ok s') : s'.srcs = srcs' ∧ s'.outer = [] := by
-  obtain ⟨ct, jgs, replaced, skip, s1, hc⟩ := buildScope_core g env srcs' s s' h
-  exact buildCore_shape g env srcs' ct jgs replaced skip s1 s' hc
+theorem buildScope_shape (g : Gen) (env jenv : Env) (srcs' : List Src) (s s' : Scope)
+    (h : buildScope g env jenv srcs' s = .ok s') : s'.srcs = srcs' ∧ s'.outer = [] := by
+  obtain ⟨ct, jgs, replaced, skip, s1, hc⟩ := buildScope_core g env jenv srcs' s s' h
+  exact buildCore_shape g env jenv srcs' ct jgs replaced skip s1 s' hc
 
 /-! ### stars -/
 
@@ -152,7 +152,7 @@ def Complete (s' : Scope) : Prop :=
 theorem qualifyScope_complete (g : Gen) (σ : Schema) (outs : List (List String)) (s s' : Scope)
     (h : qualifyScope g σ outs s = .ok s') : Complete s' := by
   obtain ⟨srcs', env0, hm, _, hb, hv⟩ := qualifyScope_ok g σ outs s s' h
-  obtain ⟨hs, ho⟩ := buildScope_shape g _ srcs' s s' hb
+  obtain ⟨hs, ho⟩ := buildScope_shape g _ _ srcs' s s' hb
   have ha := mkEnv_aliased g σ outs s.srcs srcs' env0 hm
   refine ⟨?_, ho, envNames (refOrder env0), hv, ?_⟩
   · intro src hsrc
@@ -947,8 +947,87 @@ structure ScopeInv (env : Env) (s' : Scope) : Prop where
   orderForm : s'.group = [] ∨ ∀ e ∈ s'.order, ∃ x, e = orderByAlias s'.projs x
   aliased : hasStar s'.projs = false → AllAliased s'.projs
 
-theorem qcolJoin_ok (env : Env) (hd : hasDup (envNames env) = false) (j0 j : Join)
-    (h : qcolJoin env false (j0, false) = .ok j) :
+theorem unique_sub_colCheck (env pre : Env) (n t : String) (hd : hasDup (envNames env) = false)
+    (hsub : ∀ e ∈ pre, e ∈ env) (h : unique pre n = some t) : colCheck env t n = true := by
+  unfold unique at h
+  split at h
+  · rename_i e hf
+    simp at h
+    subst h
+    have hm : e ∈ pre.filter (fun e => e.2.contains n) := by rw [hf]; simp
+    rw [List.mem_filter] at hm
+    obtain ⟨he, hc⟩ := hm
+    unfold colCheck
+    rw [envCols_of_mem env e.1 e.2 hd (hsub e he)]
+    have hc' : n ∈ e.2 := by simpa using hc
+    simp [hc']
+  · simp at h
+
+theorem qcolOn_ColOk (env pre : Env) (hd : hasDup (envNames env) = false) (hsub : ∀ e ∈ pre, e ∈ env) :
+    ∀ e e' : Expr, qcolOn env pre e = .ok e' → ColOk env e' = true := by
+  intro e
+  induction e with
+  | col t n =>
+    intro e' h
+    cases t with
+    | some t =>
+      simp only [qcolOn] at h
+      split at h
+      · rename_i hc; simp at h; subst h; simpa [ColOk] using hc
+      · simp at h
+    | none =>
+      simp only [qcolOn] at h
+      split at h
+      · rename_i t hu; simp at h; subst h; simpa [ColOk] using unique_colCheck env n t hd hu
+      · split at h
+        · rename_i t hu; simp at h; subst h; simpa [ColOk] using unique_sub_colCheck env pre n t hd hsub hu
+        · simp at h; subst h; rfl
+  | lit k => intro e' h; simp [qcolOn] at h; subst h; rfl
+  | bin op l r ihl ihr =>
+    intro e' h
+    simp only [qcolOn] at h
+    obtain ⟨l', hl, h⟩ := bind_ok h
+    obtain ⟨r', hr, h⟩ := bind_ok h
+    simp [pure, Except.pure] at h
+    subst h
+    simp [ColOk, ihl l' hl, ihr r' hr]
+  | paren e ih =>
+    intro e' h
+    simp only [qcolOn] at h
+    obtain ⟨x, hx, h⟩ := bind_ok h
+    simp [pure, Except.pure] at h
+    subst h
+    simp [ColOk, ih x hx]
+  | coalesce args =>
+    intro e' h
+    simp only [qcolOn] at h
+    split at h
+    · rename_i hc; simp at h; subst h; simpa [ColOk] using hc
+    · simp at h
+
+/-- **the join-context fallback stays inside the prefix**: a bare ON name that no source of the whole scope owns alone
+    is bound, if at all, to a source among those available at that join, and that source has the column -/
+theorem qcolOn_prefix (env pre : Env) (n t : String) (hu : unique env n = none)
+    (h : qcolOn env pre (.col none n) = .ok (.col (some t) n)) :
+    ∃ cols, (t, cols) ∈ pre ∧ cols.contains n = true := by
+  simp only [qcolOn, hu] at h
+  split at h
+  · rename_i t' hp
+    simp at h
+    subst h
+    unfold unique at hp
+    split at hp
+    · rename_i e hf
+      simp at hp
+      subst hp
+      have hm : e ∈ pre.filter (fun e => e.2.contains n) := by rw [hf]; simp
+      rw [List.mem_filter] at hm
+      exact ⟨e.2, hm.1, hm.2⟩
+    · simp at hp
+  · simp at h
+
+theorem qcolJoin_ok (env pre : Env) (hd : hasDup (envNames env) = false) (hsub : ∀ e ∈ pre, e ∈ env) (j0 j : Join)
+    (h : qcolJoin env pre false (j0, false) = .ok j) :
     (∀ e, j.on = some e → ColOk env e = true) ∧ j.natural = j0.natural ∧ j.usingCols = j0.usingCols := by
   unfold qcolJoin at h
   split at h
@@ -959,7 +1038,6 @@ theorem qcolJoin_ok (env : Env) (hd : hasDup (envNames env) = false) (j0 j : Joi
   · rename_i e hn
     simp only [Bool.false_and, Bool.false_eq_true, if_false] at h
     split at h
-    · simp at h
     · obtain ⟨e', he', h⟩ := bind_ok h
       simp [pure, Except.pure] at h
       subst h
@@ -968,29 +1046,43 @@ theorem qcolJoin_ok (env : Env) (hd : hasDup (envNames env) = false) (j0 j : Joi
       simp at hx
       subst hx
       exact qcol_ColOk env [] hd e e' he'
+    · obtain ⟨e', he', h⟩ := bind_ok h
+      simp [pure, Except.pure] at h
+      subst h
+      refine ⟨?_, rfl, rfl⟩
+      intro x hx
+      simp at hx
+      subst hx
+      exact qcolOn_ColOk env pre hd hsub e e' he'
 
-theorem mapE_qcolJoin_same (env : Env) (hd : hasDup (envNames env) = false) :
-    ∀ (js0 joinsB : List Join), mapE (qcolJoin env false) (js0.map (fun j => (j, false))) = .ok joinsB →
-      joinsB.length = js0.length ∧ hasMerge joinsB = hasMerge js0 := by
+theorem qcolJoins_same (env jenv : Env) (hd : hasDup (envNames env) = false) (hsub : ∀ e ∈ jenv, e ∈ env) :
+    ∀ (js0 joinsB : List Join) (i : Nat), qcolJoins env jenv false i (js0.map (fun j => (j, false))) = .ok joinsB →
+      joinsB.length = js0.length ∧ hasMerge joinsB = hasMerge js0
+      ∧ ∀ j ∈ joinsB, ∀ e, j.on = some e → ColOk env e = true := by
   intro js0
   induction js0 with
-  | nil => intro joinsB h; simp [mapE] at h; subst h; exact ⟨rfl, rfl⟩
+  | nil => intro joinsB i h; simp [qcolJoins] at h; subst h; exact ⟨rfl, rfl, by intro j hj; simp at hj⟩
   | cons j0 rest ih =>
-    intro joinsB h
-    simp only [List.map, mapE] at h
+    intro joinsB i h
+    simp only [List.map, qcolJoins] at h
     obtain ⟨y, hy, h⟩ := bind_ok h
     obtain ⟨ys, hys, h⟩ := bind_ok h
     simp [pure, Except.pure] at h
     subst h
-    obtain ⟨_, hn, hu⟩ := qcolJoin_ok env hd j0 y hy
-    obtain ⟨h1, h2⟩ := ih ys hys
-    refine ⟨by simp [h1], ?_⟩
-    simp only [hasMerge, List.any_cons] at h2 ⊢
-    rw [h2, hn, hu]
+    obtain ⟨hc, hn, hu⟩ := qcolJoin_ok env _ hd (fun e he => hsub e (List.mem_of_mem_take he)) j0 y hy
+    obtain ⟨h1, h2, h3⟩ := ih ys (i + 1) hys
+    refine ⟨by simp [h1], ?_, ?_⟩
+    · simp only [hasMerge, List.any_cons] at h2 ⊢
+      rw [h2, hn, hu]
+    · intro j hj
+      simp only [List.mem_cons] at hj
+      rcases hj with rfl | hj
+      · exact hc
+      · exact h3 j hj
 
-theorem buildCore_inv (g : Gen) (env : Env) (srcs' : List Src) (js0 : List Join) (skip : List String) (s s' : Scope)
-    (hd : hasDup (envNames env) = false)
-    (h : buildCore g env srcs' [] (js0.map (fun j => (j, false))) false skip s = .ok s') :
+theorem buildCore_inv (g : Gen) (env jenv : Env) (srcs' : List Src) (js0 : List Join) (skip : List String) (s s' : Scope)
+    (hd : hasDup (envNames env) = false) (hsub : ∀ e ∈ jenv, e ∈ env)
+    (h : buildCore g env jenv srcs' [] (js0.map (fun j => (j, false))) false skip s = .ok s') :
     ScopeInv env s' ∧ s'.joins.length = js0.length ∧ hasMerge s'.joins = hasMerge js0 := by
   unfold buildCore at h
   obtain ⟨projsB, hB1, h⟩ := bind_ok h
@@ -1016,12 +1108,9 @@ theorem buildCore_inv (g : Gen) (env : Env) (srcs' : List Src) (js0 : List Join)
       optE_forall _ _ _ _ hB4 (fun x y _ hxy => qcolHaving_ColOk env x y hxy)
     have oB : ∀ e ∈ orderB, ColOk env e = true :=
       mapE_forall _ _ _ _ hB5 (fun x y _ hxy => qcol_ColOk env _ hd x y hxy)
-    have jB : ∀ j ∈ joinsB, ∀ e, j.on = some e → ColOk env e = true := by
-      refine mapE_forall _ (fun j => ∀ e, j.on = some e → ColOk env e = true) _ _ hB6 ?_
-      intro x y hx hxy
-      obtain ⟨j0, _, rfl⟩ := List.mem_map.mp hx
-      exact (qcolJoin_ok env hd j0 y hxy).1
-    have jLen := mapE_qcolJoin_same env hd js0 joinsB hB6
+    have jAll := qcolJoins_same env jenv hd hsub js0 joinsB 0 hB6
+    have jB := jAll.2.2
+    have jLen : joinsB.length = js0.length ∧ hasMerge joinsB = hasMerge js0 := ⟨jAll.1, jAll.2.1⟩
     have pD : ∀ q ∈ projsD, ProjOk env q = true := by
       have : applyStars env (expandProjs env [] 0 projsB).1 = .ok projsD := by simpa [applyStarsU] using hD
       exact applyStars_ok env hd _ projsD hpc.1 this
@@ -1081,10 +1170,10 @@ theorem buildCore_inv (g : Gen) (env : Env) (srcs' : List Src) (js0 : List Join)
       exact qualifyOutputs_allAliased g.colName projsD 0 s.outer hs
 
 /-- without USING / NATURAL joins step U does nothing -/
-theorem buildScope_noMerge (g : Gen) (env : Env) (srcs' : List Src) (s : Scope) (hm : hasMerge s.joins = false) :
-    buildScope g env srcs' s =
+theorem buildScope_noMerge (g : Gen) (env jenv : Env) (srcs' : List Src) (s : Scope) (hm : hasMerge s.joins = false) :
+    buildScope g env jenv srcs' s =
       if (s.joins.length + 1 != srcs'.length && !s.joins.isEmpty) = true then .error .internal
-      else buildCore g env srcs' [] (s.joins.map (fun j => (j, false))) false (namedSelects s.projs) s := by
+      else buildCore g env jenv srcs' [] (s.joins.map (fun j => (j, false))) false (namedSelects s.projs) s := by
   unfold buildScope
   split
   · rfl
@@ -1130,10 +1219,10 @@ theorem visible_noBare (names : List String) : ∀ e : Expr, visible names [] e 
     simp [noBare, ih h]
   | coalesce args => intro _; rfl
 
-theorem buildCore_fixed (g : Gen) (env : Env) (names : List String) (srcs' : List Src) (s' : Scope)
+theorem buildCore_fixed (g : Gen) (env jenv : Env) (names : List String) (srcs' : List Src) (s' : Scope)
     (hinv : ScopeInv env s') (hv : validate names s' = true) (hstar : hasStar s'.projs = false)
     (hh : ∀ e, s'.having = some e → visible names [] e = true) (ho : s'.outer = []) (hs : s'.srcs = srcs') :
-    buildCore g env srcs' [] (s'.joins.map (fun j => (j, false))) false (namedSelects s'.projs) s' = .ok s' := by
+    buildCore g env jenv srcs' [] (s'.joins.map (fun j => (j, false))) false (namedSelects s'.projs) s' = .ok s' := by
   obtain ⟨outer, srcs, joins, projs, whr, group, having, order⟩ := s'
   simp only at ho hs hstar hh
   subst ho hs
@@ -1162,29 +1251,31 @@ theorem buildCore_fixed (g : Gen) (env : Env) (names : List String) (srcs' : Lis
     optE_fixed _ _ (fun x hx => qcolHaving_fixed env x (iH x hx))
   have hB5 : mapE (qcol env (namedSelects projs)) order = .ok order :=
     mapE_fixed _ _ (fun x hx => qcol_fixed env names _ x (iO x hx) (v5 x hx))
-  have hB6 : mapE (qcolJoin env false) (joins.map (fun j => (j, false))) = .ok joins := by
-    have : ∀ l : List Join, (∀ j ∈ l, j ∈ joins) → mapE (qcolJoin env false) (l.map (fun j => (j, false))) = .ok l := by
+  have hB6 : qcolJoins env jenv false 0 (joins.map (fun j => (j, false))) = .ok joins := by
+    have : ∀ (l : List Join) (i : Nat), (∀ j ∈ l, j ∈ joins) →
+        qcolJoins env jenv false i (l.map (fun j => (j, false))) = .ok l := by
       intro l
       induction l with
-      | nil => intro _; rfl
+      | nil => intro _ _; rfl
       | cons j rest ih =>
-        intro hl
+        intro i hl
         have hj := hl j (by simp)
-        have hfix : qcolJoin env false (j, false) = .ok j := by
+        have hfix : ∀ pre, qcolJoin env pre false (j, false) = .ok j := by
+          intro pre
           unfold qcolJoin
           cases hon : j.on with
           | none => simp [hon]
           | some e =>
             have hvis : visible names [] e = true := by simpa [hon] using v6 j hj
             have hnb := visible_noBare names e hvis
-            simp only [hon, Bool.false_and, Bool.false_eq_true, if_false, hnb, Bool.not_true]
+            simp only [hon, Bool.false_and, Bool.false_eq_true, if_false, hnb, if_true]
             rw [qcol_fixed env names [] e (iJ j hj e hon) hvis]
             simp only [bind, Except.bind, pure, Except.pure]
             congr 1
             cases j
             simp_all
-        simp [mapE, hfix, ih (fun x hx => hl x (by simp [hx])), bind, Except.bind, pure, Except.pure]
-    exact this joins (fun j hj => hj)
+        simp [qcolJoins, hfix, ih (i + 1) (fun x hx => hl x (by simp [hx])), bind, Except.bind, pure, Except.pure]
+    exact this joins 0 (fun j hj => hj)
   have hC1 : ∀ m i, (expandProjs env m i projs).1 = projs := fun m i => expandProjs_fixed env names projs m i v1 hAll
   have hC2 : ∀ m, whr.map (expand env m .plain .root) = whr := by
     intro m
@@ -1263,16 +1354,28 @@ theorem visible_of_having (names : List String) :
 def Resolved (s' : Scope) : Prop :=
   hasStar s'.projs = false ∧ ∀ e, s'.having = some e → noBare e = true
 
+theorem joinEnv_sub (g : Gen) (env0 : List (Bool × String × List String)) :
+    ∀ e ∈ joinEnv g env0, e ∈ refOrder env0 := by
+  intro e he
+  unfold joinEnv at he
+  split at he
+  · obtain ⟨x, hx, rfl⟩ := List.mem_map.mp he
+    simp only [refOrder, List.mem_append, List.mem_map, List.mem_filter]
+    cases hb : x.1
+    · exact Or.inl ⟨x, ⟨hx, by simp [hb]⟩, rfl⟩
+    · exact Or.inr ⟨x, ⟨hx, by simp [hb]⟩, rfl⟩
+  · exact he
+
 theorem qualifyScope_fixed (g : Gen) (σ : Schema) (outs : List (List String)) (s s' : Scope)
     (h : qualifyScope g σ outs s = .ok s') (hm : hasMerge s.joins = false) (hr : Resolved s') :
     qualifyScope g σ outs s' = .ok s' ∧ hasMerge s'.joins = false := by
   obtain ⟨srcs', env0, hme, hdup, hb, hv⟩ := qualifyScope_ok g σ outs s s' h
-  obtain ⟨hs, ho⟩ := buildScope_shape g _ srcs' s s' hb
-  rw [buildScope_noMerge g _ srcs' s hm] at hb
+  obtain ⟨hs, ho⟩ := buildScope_shape g _ _ srcs' s s' hb
+  rw [buildScope_noMerge g _ _ srcs' s hm] at hb
   split at hb
   · simp at hb
   · rename_i hal
-    obtain ⟨hinv, hlen, hmerge⟩ := buildCore_inv g _ srcs' s.joins _ s s' hdup hb
+    obtain ⟨hinv, hlen, hmerge⟩ := buildCore_inv g _ _ srcs' s.joins _ s s' hdup (joinEnv_sub g env0) hb
     have hh' : ∀ e, s'.having = some e → visible (envNames (refOrder env0)) [] e = true := by
       intro e he
       have hv' := hv
@@ -1280,7 +1383,7 @@ theorem qualifyScope_fixed (g : Gen) (σ : Schema) (outs : List (List String)) (
       have v4 := hv'.1.1.2
       rw [he] at v4
       exact visible_of_having _ e v4 (hr.2 e he)
-    have hfix := buildCore_fixed g (refOrder env0) (envNames (refOrder env0)) srcs' s' hinv hv hr.1 hh' ho hs
+    have hfix := buildCore_fixed g (refOrder env0) (joinEnv g env0) (envNames (refOrder env0)) srcs' s' hinv hv hr.1 hh' ho hs
     have hm2 : hasMerge s'.joins = false := by rw [hmerge]; exact hm
     have hme' : mkEnv g σ outs s'.srcs = some (srcs', env0) := by
       rw [hs]; exact mkEnv_fixed g σ outs s.srcs srcs' env0 hme
@@ -1290,8 +1393,8 @@ theorem qualifyScope_fixed (g : Gen) (σ : Schema) (outs : List (List String)) (
       rw [hlen, this]
       simpa using hal
     refine ⟨?_, hm2⟩
-    have hb2 : buildScope g (refOrder env0) srcs' s' = .ok s' := by
-      rw [buildScope_noMerge g _ srcs' s' hm2, hal']
+    have hb2 : buildScope g (refOrder env0) (joinEnv g env0) srcs' s' = .ok s' := by
+      rw [buildScope_noMerge g _ _ srcs' s' hm2, hal']
       simpa using hfix
     simp [qualifyScope, hme', hdup, hb2, check, hv]
 
@@ -1665,8 +1768,8 @@ theorem expandProjs_spec (env : Env) :
         have := ih m (i + 1) (fun x hx => hb x (by simp [hx]))
         simp [expandProjs, expandSpec, this, expand_name env m .plain e .root (hb e (by simp))]
 
-theorem buildCore_names (g : Gen) (env : Env) (srcs' : List Src) (jgs : List (Join × Bool)) (replaced : Bool)
-    (skip : List String) (s s' : Scope) (h : buildCore g env srcs' [] jgs replaced skip s = .ok s')
+theorem buildCore_names (g : Gen) (env jenv : Env) (srcs' : List Src) (jgs : List (Join × Bool)) (replaced : Bool)
+    (skip : List String) (s s' : Scope) (h : buildCore g env jenv srcs' [] jgs replaced skip s = .ok s')
     (hstar : hasStar s'.projs = false) (hst : NamesStable env s.projs) :
     outNames s'.projs = overlay s.outer (nameAll g.colName 0 (expandSpec env s.projs)) := by
   unfold buildCore at h
